@@ -527,7 +527,8 @@ package shell_operator
 //@   inlines (*HookController).HandleEnableKubernetesBindings, (*ShellOperator).taskHandleEnableKubernetesBindings$1
 //@   requires op != nil && op.HookManager != nil && t != nil
 //@   ensures [sync-tasks-name-main] forall(i, 0, len(result.HeadTasks), dyntype(result.HeadTasks[i], *task.BaseTask) && result.HeadTasks[i].(*task.BaseTask) != nil && result.HeadTasks[i].(*task.BaseTask).QueueName == "main")
-//@   ensures [only-head-tasks] len(result.TailTasks) == 0 && len(result.AfterTasks) == 0
+//@   ensures [other-tasks-name-main] forall(i, 0, len(result.TailTasks), dyntype(result.TailTasks[i], *task.BaseTask) && result.TailTasks[i].(*task.BaseTask) != nil && result.TailTasks[i].(*task.BaseTask).QueueName == "main")
+//@   ensures [after-tasks-name-main] forall(i, 0, len(result.AfterTasks), dyntype(result.AfterTasks[i], *task.BaseTask) && result.AfterTasks[i].(*task.BaseTask) != nil && result.AfterTasks[i].(*task.BaseTask).QueueName == "main")
 //@   loop (*HookController).HandleEnableKubernetesBindings#1
 //@     invariant forall(i, 0, len(hookRunTasks), dyntype(hookRunTasks[i], *task.BaseTask) && hookRunTasks[i].(*task.BaseTask) != nil && hookRunTasks[i].(*task.BaseTask).QueueName == "main")
 //@   loop 1
